@@ -23,9 +23,11 @@ def main():
     ok = True
     with common.Scratch("SETUP") as s:
         common.inject(s, log)
-        for pkg in ("bemodel", "climate", "hulc"):
+        for pkg in ("bemodel", "climate", "hulc", "hulc2model"):
             try:
                 run_native.build(s, pkg, log)
+                if pkg == "hulc2model":
+                    run_native.build_bins(s, log)
             except common.Undecided as e:
                 log("native build failed: " + str(e)[:500])
                 ok = False
